@@ -32,6 +32,7 @@ class Job:
         self.weight = spec.get("weight", 1.0)
         self.flavour = spec.get("flavour", "O2")
         self.env = spec.get("env", {})
+        self.py = spec.get("py")
         self.stats = []
         self.viols = []
         self.next_start = 0
@@ -114,6 +115,17 @@ def run_stream(job, seed, tier, tmpdir, deadline, chunk, results, wid, max_viols
                                   "msg": "harness exited with status %d: %s" % (r.returncode, (r.stderr or r.stdout)[-1500:].replace("\n", " | ")),
                                   "job": job, "seed": seed})
             return
+
+def run_py(job, seed, tier, deadline):
+    import importlib
+    mod = importlib.import_module(job.py)
+    st, viols = mod.run(job.bin, seed, tier, deadline)
+    with job.lock:
+        job.stats.append(st)
+        for v in viols:
+            v["job"] = job
+            v["seed"] = seed
+            job.viols.append(v)
 
 def load_known():
     if not os.path.exists(KNOWN):
@@ -289,6 +301,11 @@ def check_property(prop, tier, seed):
         wid = 0
         for j, n in zip(jobs, slots):
             chunk = j.spec.get("chunk", 400 if tier == "quick" else 2000)
+            if j.py:
+                th = threading.Thread(target=run_py, args=(j, seed, tier, deadline))
+                th.start()
+                threads.append(th)
+                continue
             for _ in range(n):
                 th = threading.Thread(target=run_stream, args=(j, seed, tier, tmpdir, deadline, chunk, None, wid, 4))
                 th.start()
@@ -319,7 +336,9 @@ def check_property(prop, tier, seed):
                 for k, v in st.get("workers_hist", {}).items():
                     workers_hist[k] = workers_hist.get(k, 0) + v
                 for k, v in st.items():
-                    if k.startswith("x_") and isinstance(v, (int, float)):
+                    if k.startswith("xb_") and isinstance(v, str):
+                        extra[k] = extra.get(k, 0) | int(v, 16)
+                    elif k.startswith("x_") and isinstance(v, (int, float)):
                         extra[k] = extra.get(k, 0) + v
                     elif k.startswith("x_") and isinstance(v, dict):
                         d = extra.setdefault(k, {})
@@ -389,8 +408,11 @@ def check_property(prop, tier, seed):
                 # no replay file (e.g. sanitizer abort): report with the command that reproduces it
                 tag = "%s-%s-%s" % (vp, re.sub(r"[^A-Za-z0-9]+", "_", v["vclass"]), v.get("run", "0"))
                 final = os.path.join(REPLAYS, tag + ".json")
-                json.dump({"format": "mvsim-cmd-1", "property": vp, "vclass": v["vclass"], "msg": v.get("msg", ""),
-                           "cmd": job.cmd(v.get("seed", seed), int(v.get("run", 0)), 1, tier, REPLAYS, None, 60) if job else None}, open(final, "w"), indent=1)
+                if "envcase" in v:
+                    json.dump({"format": "mvsim-env-1", "property": vp, "vclass": v["vclass"], "msg": v.get("msg", ""), "envcase": v["envcase"]}, open(final, "w"), indent=1)
+                else:
+                    json.dump({"format": "mvsim-cmd-1", "property": vp, "vclass": v["vclass"], "msg": v.get("msg", ""),
+                               "cmd": job.cmd(v.get("seed", seed), int(v.get("run", 0)), 1, tier, REPLAYS, None, 60) if job else None}, open(final, "w"), indent=1)
                 out_lines.append("VIOLATION property=%s replay=%s" % (vp, final))
                 final_viol.append({"property": vp, "class": v["vclass"], "msg": v.get("msg", "")[:500], "replay": final})
             rc = 1
@@ -406,7 +428,10 @@ def check_property(prop, tier, seed):
             rc = 2
         # ---- samples ----
         samples = []
-        for j in jobs[:3]:
+        for j in jobs:
+            for st in j.stats:
+                samples += st.get("samples", [])[:2]
+        for j in [j for j in jobs if not j.py][:3]:
             try:
                 r = subprocess.run(j.cmd(seed, 0, 2, tier, tmpdir, None, 20) + ["--dump-plan", "--verbose"], stdout=subprocess.PIPE,
                                    stderr=subprocess.PIPE, text=True, timeout=60, errors="replace")
@@ -421,6 +446,9 @@ def check_property(prop, tier, seed):
                 pass
         if not samples:
             samples = [{"note": "no sample could be produced"}]
+        for k in list(extra):
+            if k.startswith("xb_"):
+                extra["x_" + k[3:] + "_distinct_count"] = bin(extra.pop(k)).count("1")
         wall = time.time() - t0
         run_wall = max(1e-6, wall - t_build)
         site_named = {SITE_NAMES.get(int(k), k): v for k, v in sites.items()}
@@ -477,6 +505,21 @@ def check_property(prop, tier, seed):
 
 def do_replay(path):
     rp = json.load(open(path))
+    if rp.get("format") == "mvsim-env-1":
+        bdir = B.build("O2")
+        env = {k: v for k, v in os.environ.items() if not k.startswith("MYTH_")}
+        env["MYTH_BIND_WORKERS"] = "0"
+        env.update(rp["envcase"]["env"])
+        try:
+            r = subprocess.run([os.path.join(bdir, "mvh"), "--envprobe", str(rp["envcase"]["expect_nworkers"])], env=env, stdout=subprocess.PIPE, stderr=subprocess.PIPE, text=True, timeout=30, errors="replace")
+            ok = r.returncode == 0 and "ENVPROBE-OK" in r.stdout
+            print((r.stdout + r.stderr)[-1500:])
+        except subprocess.TimeoutExpired:
+            ok = False
+            print("did not finish within 30 s")
+        if not ok:
+            print("VIOLATION property=%s replay=%s" % (rp.get("property", "C15"), path))
+        return 0 if ok else 1
     if rp.get("format") == "mvsim-cmd-1":
         cmd = rp["cmd"]
         fl = "O2"
